@@ -249,8 +249,54 @@ func genC12(m *M, budget int) {
 	f := &FM{M: m}
 	f.corpusField()
 	budget += f.events
+	hist := 0
 	for f.events < budget {
 		f.reset()
+		hist++
+		// SYSTEMATIC (own random stream): every boundary-window kind in turn, as the STORED form of an operand and as the
+		// stored form of the result of each field operation
+		budget += f.withAux(func() {
+			w, wc := f.windowKind(hist)
+			f.class("window_walk:" + wc)
+			a := mulmod(new(big.Int).Mod(w, bigP), rInvP, bigP)
+			b := f.randBig(bigP)
+			ids := []kv{{"d", 3}, {"a", 1}, {"b", 2}}
+			run := func(x, y *big.Int, op int) {
+				f.setInt(0, x)
+				f.setInt(1, y)
+				switch op {
+				case 0:
+					f.F[2].Multiply(f.F[0], f.F[1])
+					f.emitF("FMul", ids...)
+				case 1:
+					f.F[2].Square(f.F[0])
+					f.emitF("FSqr", ids[:2]...)
+				case 2:
+					f.F[2].Add(f.F[0], f.F[1])
+					f.emitF("FAdd", ids...)
+				case 3:
+					f.F[2].Subtract(f.F[0], f.F[1])
+					f.emitF("FSub", ids...)
+				default:
+					f.F[2].Negate(f.F[0])
+					f.emitF("FNeg", ids[:2]...)
+				}
+			}
+			for op := 0; op < 5; op++ {
+				run(a, b, op)
+			}
+			f.emitF("FBytes", kv{"a", 1}, kv{"ret", f.F[0].Bytes()})
+			f.emitF("FIsZero", kv{"a", 1}, kv{"ret", clamp(f.F[0].IsZero())})
+			if b.Sign() != 0 { // results
+				run(b, mulmod(a, new(big.Int).ModInverse(b, bigP), bigP), 0)
+				run(b, new(big.Int).Mod(new(big.Int).Sub(a, b), bigP), 2)
+				run(b, new(big.Int).Mod(new(big.Int).Sub(b, a), bigP), 3)
+				run(new(big.Int).Mod(new(big.Int).Sub(bigP, a), bigP), b, 4)
+				if r := new(big.Int).ModSqrt(a, bigP); r != nil {
+					run(r, b, 1)
+				}
+			}
+		})
 		for i := 0; i < 12; i++ {
 			f.put(0)
 			f.put(1)
